@@ -1,10 +1,233 @@
-(* C03 — see manifest.d/C03.json: what is proved for the scheduler model so far is
-   the lifecycle invariant (Props/C01.v); this file restates the part of it that
-   C03 relies on, so that the check of C03 fails when the model or that proof breaks.
-   The property itself is decided by the correspondence and the direct oracle of
-   harness/drivers/c03.py on every run. *)
-From Hio Require Import Base.Prelude Base.AMap Base.Time Model.Sched Proofs.SchedLife Proofs.SchedTop.
+(* C03 — virtual-time scheduling follows the documented cycle model.
+   Model: Model/Sched.v.  Proofs: Proofs/SchedCycleTick.v (grid), SchedCycleDue.v
+   (due rule, reference cycle model, refinement), SchedCycleRef.v (what the
+   reference model says; closed form over Z), SchedCycleStop.v (cycle steps).
+   See manifest.d/C03.json for what is full / partial / refuted. *)
+From Hio Require Import Base.Prelude Base.AMap Base.Time Model.Sched Proofs.SchedFrame Proofs.SchedLife Proofs.SchedTop
+  Proofs.SchedCycleTick Proofs.SchedCycleDue Proofs.SchedCycleRef Proofs.SchedCycleStop.
 
+(* ------------------------------------------------------------------ *)
+(* 1. The clock.  FULL: every program (static or dynamic, flat or nested, with
+   faults), every time instance, every budget.
+
+   grid start tock n = start + tock + ... + tock (n iterated tadd, left to right).
+   [on_grid start tock n l]: the trace l (newest first) is block n ++ ... ++ block 0
+   and all events of block k carry the tyme  grid k.  Hence: every event tyme and
+   the final tyme are grid points, and the grid index never decreases along the
+   trace. *)
+Theorem C03_tick :
+  forall (T : Type) (TT : Time T) (cycles fuel : nat) (p : prog T),
+    exists n, tyme (do_run cycles fuel p) = grid (p_tyme p) (p_tock p) n /\
+              on_grid (p_tyme p) (p_tock p) n (trace (do_run cycles fuel p)).
+Proof. intros. destruct (do_run_grid cycles fuel p) as (n & Ty & G). exists n. split; assumption. Qed.
+Print Assumptions C03_tick.
+
+(* readable consequence: for any two events of a run, the older one has the
+   smaller (or equal) grid index *)
+Theorem C03_tick_monotone :
+  forall (T : Type) (TT : Time T) (cycles fuel : nat) (p : prog T) l1 e2 l2 e1 l3,
+    trace (do_run cycles fuel p) = l1 ++ e2 :: l2 ++ e1 :: l3 ->      (* e1 older than e2 *)
+    exists k1 k2, (k1 <= k2)%nat /\ e_tyme e1 = grid (p_tyme p) (p_tock p) k1 /\
+                  e_tyme e2 = grid (p_tyme p) (p_tock p) k2.
+Proof.
+  intros T TT cycles fuel p l1 e2 l2 e1 l3 E. destruct (do_run_grid cycles fuel p) as (n & _ & G).
+  destruct (on_grid_mono _ _ _ _ G _ _ _ _ _ E) as (k1 & k2 & Hk & E1 & E2).
+  exists k1, k2. split; [lia|]. split; assumption.
+Qed.
+Print Assumptions C03_tick_monotone.
+
+(* one recur pass of any scheduler (root or DoDoer, at any depth): tyme does not
+   move, every event emitted carries the pass's tyme *)
+Theorem C03_pass_tyme :
+  forall (T : Type) (TT : Time T) (tk : T) (fuel : nat) (s : st T) (sid : id) s' r,
+    recur_pass tk fuel s sid = (s', r) ->
+    tyme s' = tyme s /\ exists l, trace s' = l ++ trace s /\ Forall (fun e => e_tyme e = tyme s) l.
+Proof. intros. eapply recur_pass_tyme; eassumption. Qed.
+Print Assumptions C03_pass_tyme.
+
+(* each completed cycle that does not end the run advances tyme by exactly one
+   tadd of tock and goes on with the next cycle *)
+Theorem C03_cycle_advance :
+  forall (T : Type) (TT : Time T) (tk : T) (fuel c : nat) (s : st T) limit stop,
+    cycle_ok tk fuel s = true -> stops limit stop (cycle_end tk fuel s) = false ->
+    cycle_loop tk (S c) fuel s limit stop = cycle_loop tk c fuel (cycle_end tk fuel s) limit stop /\
+    tyme (cycle_end tk fuel s) = tadd (tyme s) tk.
+Proof.
+  intros. split; [now apply cycle_loop_step|].
+  pose proof (after_tyme tk fuel 1 s) as A. exact A.
+Qed.
+Print Assumptions C03_cycle_advance.
+
+(* ------------------------------------------------------------------ *)
+(* 2. The due-time rule of recur, as the code has it.  FULL for every program and
+   every scheduler sid (root: sched_tock = root tock; DoDoer: its own |tock|,
+   which is what finding D35 is about). *)
+Theorem C03_due_rule :
+  forall (T : Type) (TT : Time T) (tk : T) (f : nat) (s : st T) (sid i : id) (re : T) r,
+    deeds (get_sched s sid) = DDeed i re :: r ->
+    (tleb re (tyme s) = false ->          (* not due: no send, re-appended unchanged *)
+       recur_loop tk (S f) s sid = recur_loop tk f (set_deeds (set_deeds s sid r) sid (r ++ [DDeed i re])) sid) /\
+    (tleb re (tyme s) = true ->           (* due: exactly one send *)
+       recur_loop tk (S f) s sid =
+       let '(s2, g) := gen_send tk f (set_deeds s sid r) i in
+       match g with
+       | GYield t => recur_loop tk f (set_deeds s2 sid (deeds (get_sched s2 sid) ++
+                        [DDeed i (next_due (tyme s2) (sched_tock tk s2 sid) re t)])) sid
+       | GReturn => recur_loop tk f s2 sid
+       | GRaise kbd => (s2, GRaise kbd)
+       | GFuel => (s2, GFuel)
+       end).
+Proof. intros. split; intro; [now apply recur_loop_notdue|now apply recur_loop_due]. Qed.
+Print Assumptions C03_due_rule.
+
+(* ------------------------------------------------------------------ *)
+(* 3. Static flat programs (flat_static: root doers pairwise distinct, none
+   numbered 0, all leaves whose steps have no extend/remove effects and neither
+   raise nor interrupt): do_run is exactly the reference cycle model ref_run
+   (Proofs/SchedCycleDue.v, the Gallina mirror of reference_flat): same recur
+   steps (doer, tyme) in the same order, same final tyme, same Doist.done.
+   Fuel: the single hypothesis  oof = false  (no budget ran out). *)
+Theorem C03_flat_refines :
+  forall (T : Type) (TT : Time T) (cycles fuel : nat) (p : prog T),
+    flat_static p = true -> oof (do_run cycles fuel p) = false ->
+    exists blocks (dn : bool),
+      ref_run cycles p = Some (blocks, tyme (do_run cycles fuel p), dn) /\
+      recur_steps (do_run cycles fuel p) = concat blocks /\
+      get_done (do_run cycles fuel p) 0%N = Some dn.
+Proof. intros. now apply do_run_ref. Qed.
+Print Assumptions C03_flat_refines.
+
+(* ... hence: the recur steps of a run split into one block per cycle; block k
+   happens at tyme  grid k  (every doer observes the cycle's tyme), its doers
+   are a sub-sequence of the enter order p_doers (so: in enter order, each at
+   most once per cycle), and the run ends at  grid (number of cycles). *)
+Theorem C03_once_in_order :
+  forall (T : Type) (TT : Time T) (cycles fuel : nat) (p : prog T),
+    flat_static p = true -> oof (do_run cycles fuel p) = false ->
+    exists blocks,
+      recur_steps (do_run cycles fuel p) = concat blocks /\
+      blocks_ok (p_tock p) (p_tyme p) (p_doers p) blocks /\
+      NoDup (p_doers p) /\
+      tyme (do_run cycles fuel p) = grid (p_tyme p) (p_tock p) (length blocks).
+Proof.
+  intros T TT cycles fuel p F O.
+  destruct (do_run_ref cycles fuel p F O) as (res & dn & R & S & _).
+  unfold ref_run in R. apply ref_cycles_blocks in R. destruct R as (news & -> & _ & Fin & B).
+  exists news. cbn [app]. split; [exact S|]. split.
+  - eapply blocks_ok_sub; [|exact B]. apply ref_enter_ids.
+  - split; [apply (flat_static_inv p F)|exact Fin].
+Qed.
+Print Assumptions C03_once_in_order.
+
+(* one pass of the reference: exactly the due doers run (tleb due now), once
+   each, in list order; the entry of a doer that ran and yielded t becomes
+   next_due now tock due t = (t None/falsy: now + tock; else: due + t, cumulative);
+   a doer that returned leaves; a doer not due stays unchanged *)
+Theorem C03_ref_pass :
+  forall (T : Type) (TT : Time T) (D : amap (fdef T)) (tock now : T) (q : list (@rdoer T)),
+    snd (ref_pass D now tock q) = map (fun d => (r_id d, now)) (filter (due_now now) q) /\
+    fst (ref_pass D now tock q) = flat_map (fun d => fst (ref_visit D now tock d)) q /\
+    forall d, visit_spec D tock now d (fst (ref_visit D now tock d)).
+Proof. intros. split; [apply ref_pass_out|]. split; [apply ref_pass_keep|]. intro d. apply ref_visit_spec. Qed.
+Print Assumptions C03_ref_pass.
+
+(* ------------------------------------------------------------------ *)
+(* 4. No drift.  Any time instance: as long as a doer has only yielded positive
+   (non-falsy) tocks, its due tyme is the cumulative sum start + t1 + ... + t(pc-1)
+   of what it yielded (due_cum), whatever the tymes at which it actually ran. *)
+Theorem C03_cumulative :
+  forall (T : Type) (TT : Time T) (D : amap (fdef T)) (tock start : T) ids now' q',
+    ref_reach D tock start (ref_enter D start ids) now' q' ->
+    forall d, In d q' -> all_pos D (r_id d) (r_pc d) -> r_due d = due_cum D start (r_id d) (r_pc d).
+Proof.
+  intros T TT D tock start ids now' q' R d I AP.
+  assert (F : Forall (cum_ok D start) q').
+  { eapply ref_reach_forall; [|exact R|apply cum_ok_enter]. intros now0 d0. apply cum_ok_visit. }
+  rewrite Forall_forall in F. destruct (F d I) as (_ & P). now apply P.
+Qed.
+Print Assumptions C03_cumulative.
+
+(* Exact time (ZTime): constant tock t <> 0 gives due = start + (pc-1)*t. *)
+Theorem C03_no_drift_Z :
+  forall (D : amap (fdef Z)) (tock start : Z) ids now' q' i t n,
+    t <> 0%Z -> (forall pc, (1 <= pc < n)%nat -> out_at D i pc = OYield (Some t)) ->
+    ref_reach D tock start (ref_enter D start ids) now' q' ->
+    forall d, In d q' -> r_id d = i -> (r_pc d <= n)%nat ->
+    r_due d = (start + Z.of_nat (r_pc d - 1) * t)%Z.
+Proof. intros D tock start ids now' q' i t n Nz C R d I Ei Hn. eapply ref_no_drift; eauto. Qed.
+Print Assumptions C03_no_drift_Z.
+
+(* asap: a doer that yields 0/None in the pass at tyme now gets due = now + tock,
+   the tyme of the next cycle, at which it is due again (tleb x x, exact time) *)
+Theorem C03_asap_next :
+  forall (T : Type) (TT : Time T) (D : amap (fdef T)) (tock now : T) (d : @rdoer T) t,
+    tleb (r_due d) now = true -> out_at D (r_id d) (r_pc d) = OYield t ->
+    (match t with None => true | Some x => tfalsy x end) = true ->
+    fst (ref_visit D now tock d) = [{| r_id := r_id d; r_due := tadd now tock; r_pc := S (r_pc d) |}].
+Proof. intros T TT D tock now d t Due Eo As. exact (asap_next D tock now d t Due Eo As). Qed.
+Print Assumptions C03_asap_next.
+
+(* ------------------------------------------------------------------ *)
+(* 5. Nested doers: the asap base inside a DoDoer is tyme + DoDoer.tock, not the
+   next cycle's tyme (open finding D35), so nesting in a tock-0 DoDoer is NOT
+   transparent for the due rule.  REFUTED by the witness of findings.d/C03.json
+   scaled to integers (tock 3, start 105, doer 1 yields None, 0, 7). *)
+Definition Y (t : option Z) : fstep Z := {| f_es := []; f_out := OYield t |}.
+Definition d35_defs : list (id * fdef Z) :=
+  [(1%N, FLeaf KDoer [Y None; Y (Some 0%Z); Y (Some 7%Z)]); (2%N, FLeaf KDoer [Y None]);
+   (3%N, FNest 0%Z false [1%N; 2%N])].
+Definition d35_nested : prog Z :=
+  {| p_tock := 3%Z; p_limit := None; p_tyme := 105%Z; p_doers := [3%N]; p_defs := d35_defs |}.
+Definition d35_flat : prog Z :=
+  {| p_tock := 3%Z; p_limit := None; p_tyme := 105%Z; p_doers := [1%N; 2%N]; p_defs := d35_defs |}.
+Definition steps_of (i : id) (s : st Z) : list Z :=
+  map snd (filter (fun x => N.eqb (fst x) i) (recur_steps s)).
+
+Theorem C03_nested_asap_refuted :
+  oof (do_run 20 100 d35_nested) = false /\ oof (do_run 20 100 d35_flat) = false /\
+  (* flat: asap at 105 gives due 105+3 = 108; 108 + 7 = 115 -> run at 117 *)
+  steps_of 1%N (do_run 20 100 d35_flat) = [105; 108; 117]%Z /\
+  (* nested: asap at 105 gives due 105+0 = 105; 105 + 7 = 112 -> run at 114, only 6 after asking for 7 *)
+  steps_of 1%N (do_run 20 100 d35_nested) = [105; 108; 114]%Z.
+Proof. vm_compute. repeat split. Qed.
+Print Assumptions C03_nested_asap_refuted.
+
+(* ------------------------------------------------------------------ *)
+(* Non-vacuity of the hypotheses *)
+Definition ex_flat : prog Z :=
+  let R := {| f_es := []; f_out := OReturn RTrue |} in
+  {| p_tock := 2%Z; p_limit := None; p_tyme := 10%Z; p_doers := [1; 2; 3]%N;
+     p_defs := [(1, FLeaf KFunc [Y None; Y (Some 3%Z); Y (Some 3%Z); Y (Some 3%Z); R]);
+                (2, FLeaf KDoer [Y None; Y None; Y (Some 0%Z); Y (Some 5%Z); R]);
+                (3, FLeaf KDoerGen [R])]%N |}.
+
+Example C03_example_flat :
+  flat_static ex_flat = true /\ oof (do_run 50 100 ex_flat) = false /\
+  ref_run 50 ex_flat = Some ([[(1%N, 10%Z); (2%N, 10%Z)]; [(2%N, 12%Z)]; [(1%N, 14%Z); (2%N, 14%Z)]; [(1%N, 16%Z)]; [];
+                              [(1%N, 20%Z); (2%N, 20%Z)]], 22%Z, true) /\
+  recur_steps (do_run 50 100 ex_flat) =
+    [(1%N, 10%Z); (2%N, 10%Z); (2%N, 12%Z); (1%N, 14%Z); (2%N, 14%Z); (1%N, 16%Z); (1%N, 20%Z); (2%N, 20%Z)] /\
+  tyme (do_run 50 100 ex_flat) = 22%Z.
+Proof. vm_compute. repeat split. Qed.
+
+(* doer 1 asks for t = 3 with scheduler tock 2: due 10, 13, 16, 19 -> run at 10, 14, 16, 20 (no drift) *)
+Example C03_example_no_drift :
+  forall pc, (1 <= pc < 4)%nat -> out_at (p_defs ex_flat) 1%N pc = OYield (Some 3%Z).
+Proof. intros pc Hpc. destruct pc as [|[|[|[|pc]]]]; try lia; reflexivity. Qed.
+
+(* a nested program with a raise in the middle of a pass, for the unconditional theorems *)
+Definition ex_any : prog Z :=
+  let X := {| f_es := []; f_out := ORaise |} in
+  {| p_tock := 1%Z; p_limit := None; p_tyme := 0%Z; p_doers := [1; 2; 5]%N;
+     p_defs := [(1, FLeaf KFunc [Y None; Y None; Y None; Y None]); (2, FNest 0%Z false [3; 4]);
+                (3, FLeaf KDoer [Y None; Y None; Y None; Y None]); (4, FLeaf KDoerGen [Y None; Y None; X]);
+                (5, FLeaf KFunc [Y None; Y None; Y None; Y None])]%N |}.
+Example C03_example_any :
+  let s := do_run 10 100 ex_any in
+  oof s = false /\ tyme s = 1%Z /\ map e_tyme (rev (trace s)) = repeat 0%Z 10 ++ repeat 1%Z 15.
+Proof. vm_compute. repeat split. Qed.
+
+(* The lifecycle core C03 relies on (kept from the interim version). *)
 Theorem C03_lifecycles_core :
   forall (T : Type) (TT : Time T) (cycles fuel : nat) (p : prog T) (j : id),
     life_ok (get_gen (do_run cycles fuel p) j) (events j (do_run cycles fuel p)).
